@@ -258,7 +258,7 @@ def adjudicate(pspec, records, work, parallel=8, constants=None, timeout=3600):
     return total, rejects
 
 
-def mvalidate(tspec, constants, mfile, work, parallel=8, timeout=3600):
+def mvalidate(tspec, constants, mfile, work, parallel=8, timeout=3600, quiet=False):
     """M-level trace validation (code -> spec): count records the mechanism spec does not reproduce."""
     files, total = split_records(mfile, work, parallel, "mrec_" + os.path.basename(mfile).replace(".ndjson", ""))
     if total == 0:
@@ -280,7 +280,8 @@ def mvalidate(tspec, constants, mfile, work, parallel=8, timeout=3600):
     with ThreadPoolExecutor(max_workers=parallel) as ex:
         for cnt, d in ex.map(one, files):
             drift += d
-    log("[E3/M] %s validated %d recorded calls against the mechanism spec: %d not reproduced (%.1fs)" % (tspec, n, len(drift), time.time() - t))
+    if not quiet:
+        log("[E3/M] %s validated %d recorded calls against the mechanism spec: %d not reproduced (%.1fs)" % (tspec, n, len(drift), time.time() - t))
     return n, drift
 
 
@@ -310,7 +311,7 @@ def mvalidate_grouped(tspec, mfile, work, key, consts_of, limit_groups=64):
         fn = os.path.join(work, "mgrp_%s.ndjson" % "_".join(str(x) for x in k))
         with open(fn, "w") as g:
             g.writelines(lines)
-        n, d = mvalidate(tspec, consts_of(k), fn, work, parallel=1)
+        n, d = mvalidate(tspec, consts_of(k), fn, work, parallel=1, quiet=True)
         os.remove(fn)
         return n, d
 
@@ -318,6 +319,7 @@ def mvalidate_grouped(tspec, mfile, work, key, consts_of, limit_groups=64):
         for n, d in ex.map(one, list(groups.items())):
             total += n
             drift += d
+    log("[E3/M] %s validated %d recorded scenario calls in %d configurations against the mechanism spec: %d not reproduced" % (tspec, total, len(groups), len(drift)))
     return total, drift, len(groups)
 
 
